@@ -3,7 +3,7 @@ from suites import beat as SB
 
 PID = "T_BEAT"
 LEAN_MODULES = ["MirProofs.Props.C01_Beat", "MirProofs.Props.C02_Beat", "MirProofs.Props.C04_Beat", "MirProofs.Props.C06_Beat",
-                "MirProofs.Props.C07_Beat", "MirProofs.Props.C08_Beat"]
+                "MirProofs.Props.C07_Beat", "MirProofs.Props.C08_Beat", "MirProofs.Props.C01_Entropy"]
 RULE = ("beat sequences on the 1/32 s lattice (near-regular tempi with jitter, copies / shifts / off-beat / double / "
         "half-tempo / dropped-inserted estimates, duplicates, empty and 1-2 beat inputs), dyadic or documented-"
         "default thresholds; non-trivial = both sequences long enough for the metric to be computed")
@@ -11,7 +11,6 @@ ASSUMPTIONS = ["binary64 performs the code's arithmetic exactly on the lattice; 
                "exact ties of a float-accumulated statistic against a threshold (goto mean/std, information-gain bin "
                "edges) are reported by the model and not compared"]
 UNPROVED = [
-    "C01.Beat.information_gain_range_statement: information gain in [0,1] (needs H <= log2(bins) over the reals)",
     "C02.Beat.information_gain_self_statement: information gain(x, x) = 1 for >= 2 strictly increasing beats",
     "C02 p_score_self is stated in terms of the window / train length the code computes (pScoreParts), with the "
     "decidable side condition 0 <= win < N",
